@@ -28,12 +28,13 @@ import (
 func init() { Register("dsmgmt", dsMgmt) }
 
 type mgmtState struct {
-	ctxStore   *server.Store     // long-lived contextual store created before deletions
-	deletedIDs map[uint32]string // internal dataset ids of deleted incarnations
+	ctxStore   *server.Store                // long-lived contextual store created before deletions
+	deletedIDs map[uint32]string            // internal dataset ids of deleted incarnations
 	stale      map[string][]*server.Dataset // handles of deleted datasets, by the name they had
 	everNames  map[string]bool
-	pubNS      map[string]bool // dataset name -> created with a publicNamespaces setting
-	kind       map[string]string // dataset name -> "", "pubns", "proxy", "virtual" as configured at creation
+	pubNS      map[string]bool     // dataset name -> created with a publicNamespaces setting
+	pubList    map[string][]string // dataset name -> public namespaces last set through the meta-entity (setpubns)
+	kind       map[string]string   // dataset name -> "", "pubns", "proxy", "virtual" as configured at creation
 	sharedHit  bool
 }
 
@@ -94,6 +95,11 @@ func genMgmtCase(r *rand.Rand) SDCase {
 				c.Ops = append(c.Ops, genBadTxn(r, append([]string{}, ll...), len(c.Ops)))
 				tags["rejected-txn"] = true
 			}
+		case k%25 == 7 && len(ll) > 0:
+			// a client changes (or takes away: empty list) a dataset's public namespaces the documented way: it
+			// stores the dataset's meta-entity into core.Dataset
+			c.Ops = append(c.Ops, SDOp{Kind: "setpubns", DS: ll[r.Intn(len(ll))], To: []string{"none", "one", "two", "none"}[r.Intn(4)]})
+			tags["public-namespaces-changed"] = true
 		case k < 58 && len(ll) > 0:
 			// a replica of the catalogue (the meta-entities, same ids) inside a regular dataset
 			c.Ops = append(c.Ops, SDOp{Kind: "replicate", DS: ll[r.Intn(len(ll))]})
@@ -271,10 +277,47 @@ func (s *sdRun) applyMgmt(op SDOp) error {
 			s.mg.pubNS = map[string]bool{}
 		}
 		s.mg.pubNS[op.DS] = op.To == "pubns"
+		delete(s.mg.pubList, op.DS)
 		if s.mg.kind == nil {
 			s.mg.kind = map[string]string{}
 		}
 		s.mg.kind[op.DS] = op.To
+	case "setpubns":
+		if s.m.Live(op.DS) == nil {
+			return nil
+		}
+		cd := s.core.Dsm.GetDataset("core.Dataset")
+		nsi, err := s.core.Store.NamespaceManager.GetDatasetNamespaceInfo()
+		if err != nil {
+			return err
+		}
+		res, err := cd.GetEntities("", 1000)
+		if err != nil {
+			return err
+		}
+		want := map[string][]string{"none": {}, "one": {gen.NsA}, "two": {gen.NsR, gen.NsP}}[op.To]
+		for _, e := range res.Entities {
+			if e.ID == nsi.DatasetPrefix+":"+op.DS && !e.IsDeleted {
+				l := make([]interface{}, 0, len(want))
+				for _, n := range want {
+					l = append(l, n)
+				}
+				e.Properties[nsi.PublicNamespacesKey] = l
+				if err := cd.StoreEntities([]*server.Entity{e}); err != nil {
+					return err
+				}
+				if s.mg.pubList == nil {
+					s.mg.pubList = map[string][]string{}
+				}
+				if s.mg.pubNS == nil {
+					s.mg.pubNS = map[string]bool{}
+				}
+				s.mg.pubList[op.DS] = want
+				s.mg.pubNS[op.DS] = len(want) > 0
+				s.ctx.Out.Stat("c19_public_namespaces_set_through_meta_entity:"+op.To, 1)
+				break
+			}
+		}
 	case "replicate":
 		// what a copy job with core.Dataset as its source does: the meta-entities (same ids) land in a regular dataset
 		if s.m.Live(op.DS) == nil {
@@ -331,6 +374,7 @@ func (s *sdRun) applyMgmt(op SDOp) error {
 			return err
 		}
 		s.m.Delete(op.DS)
+		delete(s.mg.pubList, op.DS)
 		delete(s.rec, op.DS)
 		s.c07ContinuePaged(op.DS, open)
 	case "rename":
@@ -345,6 +389,10 @@ func (s *sdRun) applyMgmt(op SDOp) error {
 		if s.mg.kind != nil {
 			s.mg.kind[op.To] = s.mg.kind[op.DS]
 			delete(s.mg.kind, op.DS)
+		}
+		if l, ok := s.mg.pubList[op.DS]; ok {
+			s.mg.pubList[op.To] = l
+			delete(s.mg.pubList, op.DS)
 		}
 		s.rec[op.To] = s.rec[op.DS]
 		delete(s.rec, op.DS)
@@ -628,7 +676,29 @@ func (s *sdRun) checkC19() {
 			s.viol("C19", "meta-entity-name", fmt.Sprintf("meta-entity of %s carries name %v", n, m.Props[ns+"name"]), n, m.Props[ns+"name"])
 		}
 		// public-namespace setting carried by the meta-entity and by the dataset itself
-		_, hasPub := m.Props[ns+"publicNamespaces"]
+		hasPub := false
+		var metaList []string
+		switch v := m.Props[ns+"publicNamespaces"].(type) {
+		case []any:
+			for _, x := range v {
+				metaList = append(metaList, fmt.Sprint(x))
+			}
+			hasPub = len(v) > 0
+		case nil:
+		default:
+			hasPub = true
+			metaList = []string{fmt.Sprint(v)}
+		}
+		if want, set := s.mg.pubList[n]; set {
+			d := s.core.Dsm.GetDataset(n)
+			if d != nil && fmt.Sprint(append([]string{}, d.PublicNamespaces...)) != fmt.Sprint(want) {
+				s.viol("C19", "dataset-settings", fmt.Sprintf("dataset %s: its public namespaces were set to %v through its meta-entity; the dataset carries %v (its meta-entity: %v)", n, want, d.PublicNamespaces, metaList), want, d.PublicNamespaces)
+			}
+			if fmt.Sprint(append([]string{}, metaList...)) != fmt.Sprint(want) {
+				s.viol("C19", "meta-entity-settings", fmt.Sprintf("dataset %s: its public namespaces were set to %v through its meta-entity; the meta-entity carries %v", n, want, metaList), want, metaList)
+			}
+			s.ctx.Out.Stat("c19_public_namespace_lists_compared", 1)
+		}
 		if s.mg.pubNS != nil && hasPub != s.mg.pubNS[n] {
 			s.viol("C19", "meta-entity-settings", fmt.Sprintf("dataset %s: publicNamespaces setting configured=%v, carried by its meta-entity=%v", n, s.mg.pubNS[n], hasPub), s.mg.pubNS[n], hasPub)
 		}
